@@ -34,6 +34,8 @@ TAGS = {0: "void", 1: "int", 2: "u8", 3: "float", 4: "bool", 5: "string", 6: "bs
 # ------------------------------------------------------------------------------------------------
 
 REC_RE = re.compile(r"^VERIF-AUDIT kind=(\S+)(.*)$")
+NUMERIC_FIELDS = ("type", "tag", "rc", "indeg", "ip", "fn", "audits", "objs_seen", "maxdeg", "violations", "registered", "unregistered",
+                  "live", "peak_live", "bad_unreg", "orphans", "orphan_records", "new", "total", "count")
 
 
 def parse_log(path, limit=24 << 20):
@@ -55,6 +57,8 @@ def parse_log(path, limit=24 << 20):
             if "=" in tok:
                 k, v = tok.split("=", 1)
                 d[k] = v
+        if any(k in d and not d[k].isdigit() for k in NUMERIC_FIELDS):
+            continue        # a record garbled by a crash in mid-write
         out.append((m.group(1), d))
     return out
 
@@ -390,12 +394,13 @@ fn er_nested(i: int) -> string {
         PBad(_e) => { return "outer" }
     }))
 }
-fn er_struct(i: int) -> P {
+fn er_struct(i: int) -> string {
     let r: Parsed = (parse i)
-    return P { name: (+ "n" (int_to_string i)), xs: [i, (match r {
-        POk(v) => (str_length v.pval)
-        PBad(_e) => { return (mkp i) }
-    })] }
+    let q: Q = Q { p1: (mkp i), p2: P { name: (+ "m" (int_to_string i)), xs: [i] }, label: (match r {
+        POk(v) => v.pval
+        PBad(_e) => { return "skipped" }
+    }) }
+    return q.label
 }
 fn ids(s: string) -> string { return s }
 fn idp(p: P) -> P { return p }
@@ -524,7 +529,7 @@ CHURN = {
     "early_return_pending_array_struct": ("", 'set acc (+ acc (str_length (er_aggr i)))', ""),
     "early_return_pending_nested": ("", 'set acc (+ acc (str_length (er_nested i)))', ""),
     "early_return_pending_in_callee_of_pending": ("", 'let s: string = (+ (+ "outer-" (int_to_string i)) (er_concat i))\nset acc (+ acc (str_length s))', ""),
-    "early_return_pending_struct_result": ("", 'let p: P = (er_struct i)\nset acc (+ acc (str_length p.name))', ""),
+    "early_return_pending_struct_fields": ("", 'set acc (+ acc (str_length (er_struct i)))', ""),
     "hashmap_keys_values": ('let m: HashMap<string, int> = (map_new)\n(map_set m "a" 1)\n(map_set m "b" 2)', 'let ks: array<string> = (map_keys m)\nlet vs: array<int> = (map_values m)\nset acc (+ acc (+ (array_length ks) (array_length vs)))', ""),
 }
 
@@ -675,12 +680,13 @@ fn early_args(i: int, a: array<string>, p: P) -> string {
         PBad(_e) => { return p.name }
     }))
 }
-fn early_as(i: int, a: array<string>, p: P) -> array<string> {
+fn early_arr(i: int, a: array<string>, p: P) -> string {
     let r: Parsed = (parse_i i)
-    return [(fresh_s i), p.name, (match r {
+    let t: array<string> = [(fresh_s i), p.name, (match r {
         POk(v) => v.pval
-        PBad(_e) => { return a }
+        PBad(_e) => { return (get_AS a 1 "none") }
     })]
+    return (get_AS t 2 "-")
 }
 fn fresh_u(i: int) -> U {
     if (== (% i 3) 0) { return U.Str { us: (fresh_s i) } } else {
@@ -841,6 +847,7 @@ class AliasMachine:
                   lambda: "(temp_u_s %s)" % self.uniq(),
                   lambda: "(early_s %s %s %s)" % (self.uniq(), self.e("AS", 0), self.e("P", 0)),
                   lambda: "(early_args %s %s %s)" % (self.uniq(), self.e("AS", 0), self.e("P", 0)),
+                  lambda: "(early_arr %s %s %s)" % (self.uniq(), self.e("AS", 0), self.e("P", 0)),
                   lambda: "(result_unwrap (fresh_r (* 2 %s)))" % self.uniq(),
                   lambda: "(result_unwrap_err (fresh_r (+ 1 (* 2 %s))))" % self.uniq(),
                   lambda: "(map_get (fresh_ms %d) (fresh_s %d))" % ((self.n + 1) * 37, (self.uniq(), self.n * 37)[1]),
@@ -854,7 +861,6 @@ class AliasMachine:
             "AS": [lambda: "(fresh_p %s).tags" % self.uniq(), lambda: "(fresh_q %s).%s.tags" % (self.uniq(), r.choice(["p1", "p2"])),
                    lambda: "(array_slice (fresh_as %s) %d 3)" % (self.uniq(), r.randrange(2)),
                    lambda: "(map_keys (fresh_m %s))" % self.uniq(), lambda: "(map_values (fresh_ms %s))" % self.uniq(),
-                   lambda: "(early_as %s %s %s)" % (self.uniq(), self.e("AS", 0), self.e("P", 0)),
                    lambda: "(result_unwrap (fresh_ra %s))" % self.uniq()],
             "P": [lambda: "(fresh_q %s).%s" % (self.uniq(), r.choice(["p1", "p2"])),
                   lambda: "Q { p1: (fresh_p %s), p2: %s, label: %s }.p1" % (self.uniq(), self.e("P", 0), self.e("S", 0)),
@@ -1660,7 +1666,73 @@ fn main() -> int {
 """ % (b, n, n)
 
 
-TEMPLATES = [("temporaries", _t_temporaries), ("two_locals", _t_two_locals), ("containers", _t_containers), ("struct_sharing", _t_struct_sharing),
+def _t_early_return_expr(r):
+    n = r.randint(4, 9)
+    return T_DECLS + """
+union Parsed { POk { pval: string }, PBad { pwhy: string } }
+fn mk_name(i: int) -> string { return (+ "name-number-" (int_to_string i)) }
+fn parse(i: int) -> Parsed {
+    if (== (%% i 3) 0) { return Parsed.PBad { pwhy: (mk_name i) } } else { return Parsed.POk { pval: (mk_name i) } }
+}
+fn join3(a: string, b: string, c: string) -> string { return (+ a (+ b c)) }
+fn cat3(a: array<string>, p: P, s: string) -> string { return (+ (at a 0) (+ p.name s)) }
+fn concat_or_skip(i: int, keep: array<string>) -> string {
+    let r: Parsed = (parse i)
+    let local: array<string> = keep
+    let text: string = (+ (+ (+ "item " (int_to_string i)) ": ") (match r {
+        POk(v) => v.pval
+        PBad(_e) => { return (at local 0) }
+    }))
+    return text
+}
+fn args_or_skip(i: int) -> string {
+    return (join3 (mk_name (+ i 100)) (mk_name (+ i 200)) (match (parse i) {
+        POk(v) => v.pval
+        PBad(_e) => { return "skipped" }
+    }))
+}
+fn aggr_or_skip(i: int, p: P) -> string {
+    let r: Parsed = (parse i)
+    return (cat3 [(mk_name (+ i 300)), p.name] P { name: (mk_name (+ i 400)), xs: p.xs, tags: p.tags } (match r {
+        POk(v) => v.pval
+        PBad(_e) => { return p.name }
+    }))
+}
+fn nested_or_skip(i: int) -> string {
+    let r: Parsed = (parse i)
+    let q: Parsed = (parse (+ i 1))
+    return (+ (mk_name (+ i 500)) (match r {
+        POk(v) => (+ (+ v.pval "/") (match q {
+            POk(w) => w.pval
+            PBad(_f) => { return "inner" }
+        }))
+        PBad(_e) => { return "outer" }
+    }))
+}
+fn main() -> int {
+    let keep: array<string> = [(mk_name 1), (mk_name 2)]
+    let p: P = P { name: (mk_name 3), xs: [1, 2], tags: keep }
+    let mut all: array<string> = []
+    let mut i: int = 0
+    while (< i %d) {
+        set all (array_push all (concat_or_skip i keep))
+        set all (array_push all (+ (mk_name (+ i 600)) (args_or_skip i)))
+        set all (array_push all (aggr_or_skip i p))
+        set G_S (nested_or_skip i)
+        (println G_S)
+        set i (+ i 1)
+    }
+    (println (array_length all))
+    (println (at all 0))
+    (println (at all 4))
+    (println (at keep 0))
+    (println p.name)
+    return 0
+}
+""" % n
+
+
+TEMPLATES = [("temporaries", _t_temporaries), ("early_return_expr", _t_early_return_expr), ("two_locals", _t_two_locals), ("containers", _t_containers), ("struct_sharing", _t_struct_sharing),
              ("frames", _t_frames), ("globals", _t_globals), ("interning", _t_interning), ("string_arrays", _t_string_arrays),
              ("fnvalues", _t_fnvalues), ("hashmap", _t_hashmap), ("slices", _t_slices), ("control", _t_control)]
 
@@ -1841,8 +1913,9 @@ def run(ctx):
         def do_churn(it):
             name, k, k4 = it
             res = []
-            for n in (k, k4):
-                res.append(observe(asan, sc.sub("churn/%s/%d" % (name, n)), {"main.nano": churn_program(name, n)}, every=16))
+            for n, ev in ((k, 1 if k <= K_ITER else 16), (k4, 16)):
+                # the small cell is audited at every instruction (orphan / undercount records name the opcode)
+                res.append(observe(asan, sc.sub("churn/%s/%d" % (name, n)), {"main.nano": churn_program(name, n)}, every=ev))
             return it, res
 
         churn_table = {}
@@ -1893,7 +1966,7 @@ def run(ctx):
             "instructions_under_audit": tally.instrs,
             "programs_audited_every_instruction": tally.every.get(1, 0),
             "programs_audited_every_64th": tally.every.get(64, 0),
-            "churn_cells_every_16th": tally.every.get(16, 0),
+            "churn_cells_every_16th": tally.every.get(16, 0),  # the K cells of the churn family are among the every-instruction runs
             "opcodes_executed_under_audit": dict(sorted(ops_named.items(), key=lambda kv: -kv[1])),
             "distinct_opcodes_under_audit": len(ops_named),
             "alias_machine_operations": dict(sorted(am_ops.items(), key=lambda kv: -kv[1])),
